@@ -85,7 +85,10 @@ def _outcome(fn):
         return ("raise", type(e).__name__, compare.msg(e, 160))
 
 
-def _execute(ds, lay, st, op, sort, ctx, tracer=None):
+def _execute(ds, lay, st, op, sort, ctx, tracer=None, holder=None):
+    """One operation under strategy `st`.  `holder` (a dict) keeps the GroupBy between the
+    operations of a run in the shared-object arm: the same logical history is then executed under
+    the baseline and under the strategy, and what must agree is the outcome of every call."""
     from groupby_lib.groupby.core import GroupBy
 
     gen.apply_strategy(st)
@@ -95,9 +98,16 @@ def _execute(ds, lay, st, op, sort, ctx, tracer=None):
         keys = gen.build_keys(ds, lay)
         values = gen.build_values(ds, lay, op["cols"])
         mask = gen.build_mask(ds, ops.op_mask(op))
-        gb = GroupBy(keys, sort=sort, factorize_large_inputs_in_chunks=st["chunk_flag"])
+        if holder is not None and holder.get("gb") is not None:
+            gb = holder["gb"]
+            info["repr"] = holder.get("repr", "?")
+        else:
+            gb = GroupBy(keys, sort=sort, factorize_large_inputs_in_chunks=st["chunk_flag"])
+            _repr_probe(gb, info, st, ds, lay)
+            if holder is not None:
+                holder["gb"] = gb
+                holder["repr"] = info.get("repr", "?")
         info["gb"] = gb
-        _repr_probe(gb, info, st, ds, lay)
         return ops.call_op(gb, op, values, mask, ds, raw_keys=keys)
 
     with executor.use_context(ctx):
@@ -157,7 +167,21 @@ def gen_scenario(scen: Choices, cls, cfg):
     if not op_list:
         op_list = [ops.gen_op(Choices(replay=[]), family, ds)]
     fault = gen.gen_fault(scen, stmt=True) if cfg.get("fault_mode") else None
-    return {"ds": ds, "sort": sort, "lay": lay, "st": st, "ops": op_list, "fault": fault}
+    # shared-object arm: the operations of the run are applied in sequence to ONE grouping, under
+    # the baseline and under the strategy alike (a dependence on the strategy that needs an earlier
+    # call on the same object to show -- seeded change C03-i -- is invisible to fresh objects)
+    shared = fault is None and scen.chance(1, 3)
+    if shared:
+        # the history opens with an operation of any family (layout-changing ones are in the
+        # row-wise and select families) and, in half of the cases, ends with a masked reduction
+        fam0 = scen.weighted([(3, "rowwise"), (2, "select"), (2, "composite"), (1, "basic")])
+        op_list.insert(0, ops.gen_op(scen, fam0, ds))
+        if scen.chance(1, 2):
+            last = ops.gen_op(scen, "basic", ds)
+            if last["op"] in ops.BASIC and "mask" in last:
+                last["mask"] = gen.gen_mask(scen, ds, ("bool", "slice", "positions"))
+            op_list.append(last)
+    return {"ds": ds, "sort": sort, "lay": lay, "st": st, "ops": op_list, "fault": fault, "shared": shared}
 
 
 def execute(sc, sched: Choices, cls, cfg):
@@ -185,6 +209,10 @@ def execute(sc, sched: Choices, cls, cfg):
     differs_from_baseline = False
 
     ds_full = ds
+    shared = bool(sc.get("shared"))
+    hold0, holda, holdb = ({}, {}, {}) if shared else (None, None, None)
+    if shared:
+        probes.add("shared_object_arm")
     for op in op_list:
         ds = ops.sanitize(ds_full, op)
         mask = ops.op_mask(op)
@@ -203,15 +231,19 @@ def execute(sc, sched: Choices, cls, cfg):
             "vdtype": vdtype,
             "sort": sort,
         }
+        if shared:
+            features["shared_object"] = True
 
         def add(check, outcome, expected, actual, **kw):
             rec["violations"].append({"site": dict(site, check=check, outcome=outcome, **kw), "features": dict(features), "expected": expected, "actual": actual})
 
         # ---- baseline ----
         ctx0 = executor.SimContext(sched=Choices(replay=[]), workers=1, cpu_count=4)
-        base, _ = _execute(ds, None, gen.BASELINE_STRATEGY, op, sort, ctx0)
+        base, _ = _execute(ds, None, gen.BASELINE_STRATEGY, op, sort, ctx0, holder=hold0)
         if base[0] == "refused":
             probes.add("refused_by_baseline")
+            # (the two histories would differ from here on: fresh objects for the rest of the run)
+            shared, hold0, holda, holdb = False, None, None, None
             continue
 
         def judge(check, got, ref, fired=None):
@@ -233,15 +265,17 @@ def execute(sc, sched: Choices, cls, cfg):
 
         if fault is None:
             ctxa = executor.SimContext(sched=sched, workers=st["workers"], cpu_count=st["cpu"], monitor=True)
-            ra, info = _execute(ds, lay, st, op, sort, ctxa)
+            ra, info = _execute(ds, lay, st, op, sort, ctxa, holder=holda)
             features["key_repr"] = info.get("repr", "?")
             judge("strategy_vs_baseline", ra, base)
             ctxb = executor.SimContext(sched=sched, workers=st["workers"], cpu_count=st["cpu"])
-            rb, _ = _execute(ds, lay, st, op, sort, ctxb)
+            rb, _ = _execute(ds, lay, st, op, sort, ctxb, holder=holdb)
             if ra[0] != "refused":
                 judge("schedule_vs_schedule", rb, ra)
             ctxs = [ctxa, ctxb]
             results_digest.append((base, ra, rb))
+            if shared and (ra[0] == "refused" or rb[0] == "refused"):
+                shared, hold0, holda, holdb = False, None, None, None
         else:
             this_fault = fault
             if fault["kind"] in gen.STMT_KINDS:
